@@ -111,6 +111,15 @@ def observe(interp, rec: Recorder, op, mark: int, exc=None) -> Obs:
         o.snapcfg = None
         o.extra["snap_exc"] = type(e).__name__
     try:
+        # owners (state ids) of timers / service tasks that are still pending
+        tm = getattr(interp, "task_manager", None)
+        if tm is not None:
+            o.extra["task_owners"] = sorted(k for k, ts in list(tm._tasks_by_owner.items()) if any(not t.done() for t in ts))
+        elif hasattr(interp, "_after_events"):
+            o.extra["task_owners"] = sorted({k.split("::")[0] for k in list(interp._after_events.keys())})
+    except Exception:  # noqa
+        pass
+    try:
         o.extra["actors_running"] = sorted(k for k, a in list(getattr(interp, "_actors", {}).items()) if getattr(a, "status", None) == "running")
     except Exception:  # noqa
         pass
